@@ -57,6 +57,12 @@ var stakeKinds = map[string]bool{"delegate": true, "undelegate": true, "redelega
 
 // snapshot recomputes, from the staking module's state, what every reporter's selectors have delegated to bonded validators.
 func (o *OracleC10) snapshot(v *View) (map[string]*stakeSnap, map[string]string) {
+	return bondedStakeSnapshot(v)
+}
+
+// bondedStakeSnapshot: per reporter, what each of its selectors has delegated to bonded validators (from the
+// staking module's state), and the selector -> reporter relation.
+func bondedStakeSnapshot(v *View) (map[string]*stakeSnap, map[string]string) {
 	out := map[string]*stakeSnap{}
 	sel := map[string]string{}
 	bonded := map[string]bool{}
